@@ -114,6 +114,10 @@ def run(tier, replay=None):
         c = case_by_label[r.label]
         if c[3] == "reject" and c[4].get("aggcycle") and r.rc == 0 and known_listed(res, "C13", "mutual-aggregate-cyclic-dependency-fatal"):
             continue            # signature (b) of the recorded finding: mutually dependent aggregates accepted
+        errs = [l for l in r.stderr.splitlines() if l.startswith("Error")]
+        if c[3] == "accept" and c[4].get("aggmutual") and r.rc == 1 and errs and all("Mutually dependent aggregate" in l for l in errs) \
+                and known_listed(res, "C13", "mutual-aggregate-cyclic-dependency-fatal"):
+            continue            # signature (c): the conservative diagnostic for aggregates that only filter each other
         judged.append(r)
     verdicts = dt.validate(judged, wd, "trace", res)
     text_of = {by_text[t][0]: t for t in texts}
